@@ -301,7 +301,11 @@ def plan(t, ctx, depth=0, tvmap=None):
     if k == "stype":
         return Tup([Scalar(ctx.new("i", "int"))], ctor=lambda xs, c=ti.type: c(xs[0]))
     if k == "enum":
-        vals = ctx.cut(list(ti.type))
+        vals = list(ti.type)
+        import enum as _enum
+        if issubclass(ti.type, _enum.Flag) and len(vals) >= 2:
+            vals = vals + [vals[0] | vals[1]]  # a multi-bit combination is a value of a Flag type too
+        vals = ctx.cut(vals)
         return Pool(ctx.sel(len(vals)), vals)
     if k == "literal":
         vals = ctx.cut(list(ti.args))
